@@ -153,16 +153,23 @@ def check(ctx):
     # wrappers
     t = mod.func("toposort")
     ok = any(call_name(c) == "_toposort" and kwarg(c, "returncycle") is None and len(c.args) >= 1 and unparse(c.args[0]) == "dsk" for c in calls(t)) and all(isinstance(r.value, ast.Call) for r in returns(t))
-    ctx.ob("DELEG.modes.toposort", t, "toposort = _toposort(dsk, dependencies=dependencies)", ok)
+    # every key is a start key: the wrapper must not narrow `keys` (a cycle that nothing else depends on
+    # would never be visited) and must hand the graph on unchanged
+    tcalls = [c for c in calls(t) if call_name(c) == "_toposort"]
+    ok = ok and len(tcalls) == 1 and kwarg(tcalls[0], "keys") is None and len(tcalls[0].args) == 1 and len(returns(t)) == 1
+    ctx.ob("DELEG.modes.toposort", t, "toposort = _toposort(dsk, dependencies=dependencies) -- no start-key selection", ok, "" if ok else "toposort restricts the traversal to selected start keys: keys only reachable through a cycle are never visited and the cycle is not reported")
     gc = mod.func("getcycle")
     ok = any(call_name(c) == "_toposort" and const(kwarg(c, "returncycle")) is True and unparse(kwarg(c, "keys")) == "keys" and unparse(c.args[0]) == "d" for c in calls(gc))
-    ctx.ob("DELEG.modes.getcycle", gc, "getcycle = _toposort(d, keys=keys, returncycle=True)", ok)
+    rebinds = [a for a in walk_no_nested(gc) if isinstance(a, (ast.Assign, ast.AugAssign)) and any(isinstance(t_, ast.Name) and t_.id == "keys" for t_ in (a.targets if isinstance(a, ast.Assign) else [a.target]))]
+    ok = ok and not rebinds
+    ctx.ob("DELEG.modes.getcycle", gc, "getcycle = _toposort(d, keys=keys, returncycle=True) with the caller's keys, unmodified", ok, "" if ok else "the requested start keys are replaced (e.g. when falsy): cycles that are not reachable from the request are reported")
     isd = mod.func("isdag")
     ok = any(Pat("not getcycle(d, keys)").match(r.value) is not None for r in returns(isd))
     ctx.ob("DELEG.modes.isdag", isd, "isdag = not getcycle(d, keys)", ok)
 
 
 VARIANTS = [
+    (CORE, "    return _toposort(d, keys=keys, returncycle=True)", "    if not keys:\n        keys = list(d)\n    return _toposort(d, keys=keys, returncycle=True)", "DELEG.modes.getcycle"),
     (CORE, "    if keys is None:\n        keys = dsk\n    elif not isinstance(keys, list):", "    if not keys:\n        keys = dsk\n    elif not isinstance(keys, list):", "REACH.keys-default"),
     (CORE, "                                if dep in inplay and dep not in came_from:", "                                if dep in inplay:", "TERM.cycle-reconstruction"),
     (CORE, "            if next_nodes:\n                nodes.extend(next_nodes)\n            else:", "            if next_nodes:\n                nodes.extend(next_nodes)\n            if True:", "DOM.emit-after-children"),
